@@ -302,6 +302,13 @@ def r2_transitions(ctx):
                 if d["kind"] == "assign" and d["rv"][0] == "agg" and d["rv"][1].get("adt") == "core::option::Option":
                     vs[d["rv"][1]["variant"]] = d["bb"]
         ms = _calls(f, "is_multi_segment")
+        # `is_multi_segment().then(|| frame)`: Some exactly when the test is true
+        for x in f.copy_chain(fl) | {fl}:
+            for d in f.defs(x):
+                if d["kind"] == "call" and _name(d["term"]) in ("then", "then_some") and (callee_of(d["term"]) or {}).get("krate") == "core" and ms:
+                    recv = op_local(d["term"]["a"][0])
+                    if recv is not None and ms[0][1]["dest"][0] in f.copy_chain(recv) | {recv}:
+                        ok, how = True, "the auxiliary chain runs on the Some edge of is_multi_segment().then(|| frame)"
         if set(vs) == {"Some", "None"} and ms:
             for ch in f.bool_checks_of(ms[0][0]):
                 t_reach_some = any(f.can_reach(e[1], [vs["Some"]]) or e[1] == vs["Some"] for e in ch["true_edges"])
